@@ -624,6 +624,9 @@ def w7(run, roles, L=None):
         run.ob("W7", okr, "union object holds exactly the selected member", f"returns `{p.value_text()}`", module=mod, node=p.node or fn,
                func=fn.name, construct="process_tpmu return")
     run.require(n_dec >= 2, "W7: decoding paths of process_tpmu not found")
+    if L is not None and getattr(run, "tier", "quick") == "thorough":
+        # thorough tier: the folding mode as a second, independent decision of the same clause
+        w7_fold(run, roles, L)
 
 
 def w7_fold(run, roles, L):
@@ -690,15 +693,9 @@ def w7_fold(run, roles, L):
                  d: process_stub, "MarshalEvent": lambda *a, **kw: ("event",) + tuple(a), "PathNode": lambda *a, **kw: ("node",) + tuple(a) +
                  tuple(sorted(kw.items())), "ValueConstraint": lambda *a, **kw: ("constraint",), "ValidValues": lambda *a, **kw: ("valid",) + tuple(a)}
             it = Interp(g, max_steps=200000, module_tree=mod.tree)
-            # functions of other project modules the walker calls by name are evaluated from their source as well
-            for nm_, b_ in mod.import_bindings().items():
-                if nm_ in g:
-                    continue
-                r_ = project.resolve_name(mod, nm_)
-                f_ = r_[0].functions().get(r_[1]) if r_ and r_[1] else None
-                if f_ is not None and not f_.decorator_list:
-                    g[nm_] = (lambda f__: lambda *a, **kw: it.call(f__, list(a), kw))(f_)
-            it.globals.update(g)
+            # functions and classes of other project modules the walker uses by name are evaluated from their source as well
+            from ..minieval import bind_project
+            bind_project(it, project, mod, g)
             SC, AOE = TypeRef("size_constraints"), TypeRef("abort_on_error")
             kwargs = {}
             if "size_constraints" in params:
@@ -762,8 +759,7 @@ def w7_fold(run, roles, L):
                    f"process_tpmu for {where} must decode member `{member}` (the last one listed for the selector, else the wildcard member): it {desc}",
                    module=mod, node=fn, func=fn.name, construct=kind)
     run.require(n_unions >= 10 and n_cases >= 60, f"W7: only {n_unions} unions / {n_cases} selector cases folded")
-    run.info(f"W7: the union walker does not use the inverted _selected_by table; it was folded over {n_unions} unions x their selector values "
-             f"({n_cases} cases) instead")
+    run.info(f"W7: the union walker was folded over {n_unions} reachable unions x their selector values ({n_cases} cases)")
 
 
 # ------------------------------------------------------------------------------ framing
